@@ -244,7 +244,8 @@ func DeepCast(val Value, typ ast.Type, span errors.Span, allowCasts bool) (*Valu
 		// otherwise, the inner type must also match
 		return DeepCast(*opt.Inner, optType, span, allowCasts)
 	case ClosureValueKind, FunctionValueKind, BuiltinFunctionValueKind:
-		panic("Unreachable, the analyzer prevents this")
+		// Reachable: the analyzer only rejects `as fn(..)` itself, not function types below an option,
+		// list or object type. Like on the VM, a function value never passes a runtime cast.
 	case NullValueKind:
 		switch typ.Kind() {
 		case ast.NullTypeKind:
